@@ -28,7 +28,12 @@ func init() {
 		NotDecided:  []string{"list delimiters / nesting for all shapes", "equality of round-tripped values"},
 		Rules: []core.Rule{
 			{ID: "C17-R1", Title: "encoder/decoder kind-set agreement", Decides: "every supported field kind is both written and read", Floor: 3, Run: c17r1},
-			{ID: "C17-R2", Title: "width and byte order agree writer <-> reader <-> type size; bytes depend on the value", Decides: "little-endian wire encoding; round trip of every fixed-width kind", Floor: 14, Run: func(c *core.Ctx) { c17r2(c); passThrough(c, "C17"); structTagAndValueInOrder(c) }},
+			{ID: "C17-R2", Title: "width and byte order agree writer <-> reader <-> type size; bytes depend on the value", Decides: "little-endian wire encoding; round trip of every fixed-width kind", Floor: 14, Run: func(c *core.Ctx) {
+				c17r2(c)
+				passThrough(c, "C17")
+				structTagAndValueInOrder(c)
+				returnsUndecorated(c, "C17")
+			}},
 			{ID: "C17-R3", Title: "guarded fixed-width reads", Decides: "unmarshalling arbitrary bytes does not panic", Floor: 7, Run: func(c *core.Ctx) { c17r3(c); inputIndexGuarded(c, "tlv8") }},
 			{ID: "C17-R4", Title: "fragment merge by adjacency; fresh instance per list element", Decides: "long values and lists round-trip", Floor: 2, Run: func(c *core.Ctx) { c17r4(c); decoderTagAndAppend(c) }},
 			{ID: "C17-R5", Title: "declared tlv8 structs are encodable", Decides: "all RTP message types use supported kinds and valid tags", Floor: 20, Run: c17r5},
